@@ -92,8 +92,8 @@ func (f *vFsm) mark(stream string, tag string) {
 		return
 	}
 	for _, p := range st.GetPartitions() {
-		if p.IsPaused() {
-			continue
+		if p.IsPaused() || p.log.NewestOffset() >= 0 {
+			continue // data is there already: it keeps the tag of the create that made it
 		}
 		p.log.Append([]*commitlog.Message{{MagicByte: 1, Timestamp: 1, LeaderEpoch: 1, Offset: -1, Value: []byte(tag), Headers: map[string][]byte{}}})
 	}
@@ -454,7 +454,8 @@ func TestVerifC06(t *testing.T) {
 	work := os.Getenv("VERIF_WORK")
 	// what is not compared between a live server and a rebuilt one: the marks (data) are judged by
 	// their own oracle, resumeAll is not part of a snapshot (and not in the property's list)
-	skipRestart := map[string]bool{"marks": true, "resumeAll": true, "disk": true, "activity": true}
+	skipAsg := map[string]bool{"marks": true, "resumeAll": true, "disk": true, "activity": true}
+	skipRestart := map[string]bool{"marks": true, "resumeAll": true, "disk": true, "activity": true, "asg": true}
 	for id := 0; id < n; id++ {
 		nops := 4 + r.intn(20)
 		A := vNewFsm(filepath.Join(work, fmt.Sprintf("c06_%d_A", id)), true)
@@ -464,7 +465,13 @@ func TestVerifC06(t *testing.T) {
 		var obs []vM
 		var snaps = map[int][]byte{}
 		viol, vsig := "", ""
+		// findings that do not end the history: the remaining rebuilds are still examined
+		var soft [][2]string
 		setViol := func(sig, what string) {
+			if sig == "data-resurrected" || sig == "assignments-after-snapshot-restore" {
+				soft = append(soft, [2]string{sig, what})
+				return
+			}
 			if viol == "" {
 				viol, vsig = what, sig
 			}
@@ -535,6 +542,9 @@ func TestVerifC06(t *testing.T) {
 				if err := D.apply(raws[j-1], uint64(j), true); err != nil {
 					setViol("replay-failed", fmt.Sprintf("snapshot at %d, stopped after %d: replay of operation %d %v failed: %v", i, m, j, descs[j-1], err))
 				}
+				if descs[j-1]["op"] == "create" {
+					D.mark(descs[j-1]["s"].(string), fmt.Sprintf("gen%d", j)) // only where the create made new data
+				}
 			}
 			if viol == "" {
 				var ferr error
@@ -548,6 +558,13 @@ func TestVerifC06(t *testing.T) {
 				od = D.observe()
 				if d := vC06Diff(final, od, skipRestart); d != "" {
 					setViol("restart-differs", fmt.Sprintf("snapshot after %d, stopped after %d, replay to %d: rebuilt state differs from the live one: %s", i, m, nn, d))
+				} else if d := vC06Diff(final, od, skipAsg); d != "" {
+					// the snapshot does not carry assignments; Restore re-adds the members in map order
+					sig := "assignments-after-snapshot-restore"
+					if i == 0 {
+						sig = "restart-differs"
+					}
+					setViol(sig, fmt.Sprintf("snapshot after %d, stopped after %d, replay to %d: same groups and members, but the partition assignments differ from the live server's: %s", i, m, nn, d))
 				}
 				// data: streams that exist keep the data of their incarnation; deleted ones have none
 				vC06DataOracle(final, od, descs, m, setViol, i)
@@ -562,6 +579,10 @@ func TestVerifC06(t *testing.T) {
 		cj := vM{"k": "fsm", "id": id, "ops": descs, "obs": obs, "restarts": restarts}
 		if viol != "" {
 			out.emit(vM{"k": "violation", "sig": vsig, "what": viol, "case": cj})
+		}
+		for _, sv := range soft {
+			out.emit(vM{"k": "violation", "sig": sv[0], "what": sv[1], "case": vM{"k": "fsm", "id": id, "ops": descs}})
+			stats["finding/"+sv[0]]++
 		}
 		out.emit(cj)
 	}
@@ -600,12 +621,13 @@ func vC06DataOracle(final, od vM, descs []vM, m int, setViol func(string, string
 			}
 			marks := p["marks"].([]string)
 			want := fmt.Sprintf("gen%d", inc)
+			if len(marks) == 1 && marks[0] == want {
+				continue
+			}
 			if inc <= m {
-				if len(marks) != 1 || marks[0] != want {
-					setViol("data-lost", fmt.Sprintf("snapshot after %d, stopped after %d: stream %s (created by operation %d, still existing) holds data %v after the rebuild, expected [%s]", snap, m, name, inc, marks, want))
-				}
-			} else if len(marks) != 0 {
-				setViol("data-resurrected", fmt.Sprintf("snapshot after %d, stopped after %d: stream %s was created by operation %d, after the server stopped; after the rebuild it holds %v, the data of a deleted stream of the same name", snap, m, name, inc, marks))
+				setViol("data-lost", fmt.Sprintf("snapshot after %d, stopped after %d: stream %s (created by operation %d, still existing) holds data %v after the rebuild, expected [%s]", snap, m, name, inc, marks, want))
+			} else {
+				setViol("data-resurrected", fmt.Sprintf("snapshot after %d, stopped after %d: stream %s was deleted and created again by operation %d, after the server stopped; after the rebuild it holds %v, the data of the deleted stream of the same name", snap, m, name, inc, marks))
 			}
 		}
 	}
